@@ -282,8 +282,62 @@ def virtual_locks_off():
     VLock.sched = None
 
 
+class VSemaphore(object):
+    """Counting semaphore whose operations are scheduling points (stand-in for threading.Semaphore / BoundedSemaphore)."""
+
+    def __init__(self, value=1):
+        self.value = value
+        self.initial = value
+        VLock.counter += 1
+        self.name = "sem%d" % VLock.counter
+
+    def acquire(self, blocking=True, timeout=None):
+        s = VLock.sched
+        if s is None or s.me() is None:
+            if self.value <= 0:
+                if not blocking:
+                    return False
+                raise Deadlock("probe would block on %s" % self.name)
+            self.value -= 1
+            return True
+        s.yield_point(("acquire", self.name))
+        if blocking and timeout is not None and timeout >= 0 and self.value <= 0:
+            s.yield_point(("timed_wait", self.name))
+            if self.value <= 0:
+                return False
+        while self.value <= 0:
+            if not blocking:
+                return False
+            s.block(self, ("blocked", self.name))
+        self.value -= 1
+        return True
+
+    def release(self, n=1):
+        self.value += n
+        s = VLock.sched
+        if s is not None:
+            s.wake(self)
+            if s.me() is not None:
+                s.yield_point(("release", self.name))
+
+    def locked(self):
+        return self.value <= 0
+
+    __enter__ = acquire
+
+    def __exit__(self, *a):
+        self.release()
+
+
+class VBoundedSemaphore(VSemaphore):
+    def release(self, n=1):
+        if self.value + n > self.initial:
+            raise ValueError("Semaphore released too many times")
+        VSemaphore.release(self, n)
+
+
 class ShimThreading(object):
-    """Module-like object exposing Lock = VLock, everything else from threading."""
+    """Module-like object exposing virtual Lock / RLock / Semaphore classes, everything else from threading."""
     Lock = VLock
 
     def __getattr__(self, name):
@@ -746,3 +800,8 @@ def first_use_systematic(ctx, codes_from, make_jobs, rng, pairs, cls="first_use_
         for _d in enumerate_delays(run_once, bound, limit, rng if limit else None):
             if ctx.expired():
                 break
+
+
+ShimThreading.RLock = VRLock
+ShimThreading.Semaphore = VSemaphore
+ShimThreading.BoundedSemaphore = VBoundedSemaphore
